@@ -339,6 +339,14 @@ def stepBackend (st : SuiteState) (toks : List String) : SuiteState × String :=
     -- `backend.Create` / `backend.Update` refuse a write without a value before a revision is dealt
     -- (txn.go `errEmptyValue`, /repo f2a549c; the same rule as `KB.Etcd.runCall`): nothing changes
     if (unhx v).isEmpty then (st, "create err other") else
+    if st.getFault && c.q.idxOffset != 0 && (st.b.store.get (idxKey (unhx k))).isSome then
+      -- (engines whose conflict does not carry the refusing record - TiKV - re-read it with a point Get; `getfault`: that read
+      -- fails once. The create ends "unavailable": its revision is consumed and reported invalid, nothing is written - a read that
+      -- did not answer says nothing about the key, in particular not "condition failed")
+      let rev := st.b.dealt + 1
+      let w : WEvent := { rev := rev, prevRev := 0, valid := false, verb := .create, key := unhx k, val := unhx v, uncertain := false }
+      ({ st with b := sequence { st.b with dealt := rev } w, getFault := false }, "create err unavailable")
+    else
     let (r, b) := doCreate c st.b (unhx k) (unhx v) (writeFaults opts)
     ({ st with b := b }, writeLine "create" r)
   | ["update", k, v, e] =>
